@@ -22,6 +22,7 @@ RULE = (
     '; pass 6: exact Kronecker multitask family; training steps whose mode switches go through the objective object; partial state dicts (strict=False)'
     "; pass 7: fantasy_train (a child trains, the parent is compared again), first prediction of a fantasy child against recomputation, set_data_refused (a strict set_train_data refused half-way, caught by the caller)"
     "; pass 8: training tensors edited in place and handed back to set_train_data (the same tensor objects)"
+    "; pass 9: prior-mode calls under other jitter settings; unobserved histories (no probe prediction between the steps); fantasy self-check with autograd off (runs for KISS-GP too)"
 )
 REQUIRED = ["step_matches_fresh", "final_matches_fresh", "op_output_matches_fresh", "monitor:cache_add", "monitor:clear_cache"]
 ASSUMPTIONS = [
